@@ -98,11 +98,93 @@ def signalForms : List String :=
     "case:SIGUSR2 queue:suspend !next",
     "case:default !next" ]
 
+/-- `waitForControlPlaneDrain`: every exit of its select, for every budget (the timer is armed
+unconditionally, whatever `maxWait` is). -/
+def drainForms : List String :=
+  (["logevery=0", "logevery=1 ticker:logEvery defer:ticker.Stop()"].flatMap fun t =>
+    ["on:<-ctx.Done() ret:canceled !return", "on:<-idleCh ret:idle !return", "on:<-tickCh !loop",
+     "on:<-timer.C ret:timeout !return"].map fun c =>
+      "nosession=0 timer:maxWait defer:timer.Stop() " ++ t ++ " " ++ c) ++
+  ["nosession=1 ret:idle !return"]
+
+/-- `retireControlPlaneConnections`. -/
+def retireForms : List String :=
+  [ "case:!hasOverlap abortconns !end",
+    "case:abort abortconns !end",
+    "case:default drainwait:maxDrain case:controlPlaneDrainCanceled abortconns !end",
+    "case:default drainwait:maxDrain case:controlPlaneDrainIdle !end",
+    "case:default drainwait:maxDrain case:controlPlaneDrainTimeout abortconns !end",
+    "case:default drainwait:maxDrain case:none !end" ]
+
+/-- `startControlPlaneRetirement` up to the spawn, and the retirement goroutine. -/
+def startretForms : List String :=
+  [ "nilplane=0 hasprev=0 newctx set:m.lastRetirementCancel set:m.pendingRetirementDone budget:reloadTotalSwitchBudget spawn !end",
+    "nilplane=0 hasprev=1 cancelprev newctx set:m.lastRetirementCancel set:m.pendingRetirementDone budget:reloadTotalSwitchBudget spawn !end",
+    "nilplane=1 !return" ]
+
+def retgoForms : List String :=
+  ["hasoldcancel=0", "hasoldcancel=1 oldcancel"].flatMap fun a =>
+    ["hassucc=0", "hassucc=1 cleanup"].map fun b =>
+      "defer:close(done) markretired retireconns:drainBudget " ++ a ++ " closeplane " ++ b ++ " !end"
+
 def regionForms : String → Option (List String)
   | "worker" => some workerForms
   | "handler" => some handlerForms
   | "signals" => some signalForms
+  | "drain" => some drainForms
+  | "retire" => some retireForms
+  | "startret" => some startretForms
+  | "retgo" => some retgoForms
   | _ => none
+
+/-! ### retirement clock ops -/
+
+def kv (toks : List String) (k : String) : Option String :=
+  toks.findSome? fun t =>
+    match t.splitOn "=" with
+    | [a, b] => if a = k then some b else none
+    | _ => none
+
+def optTime? (v : String) : Option (Option Nat) :=
+  if v = "never" || v = "none" then some none else v.toNat?.map some
+
+def resStr : DrainRes → String
+  | .idle => "idle" | .canceled => "canceled" | .timeout => "timeout"
+
+def retireLine (toks : List String) : Option String := do
+  let zero ← kv toks "zero"; let age ← (← kv toks "age").toInt?; let abort ← kv toks "abort"
+  let overlap ← kv toks "overlap"; let n ← (← kv toks "n").toNat?
+  let idle ← optTime? (← kv toks "idle"); let cancel ← optTime? (← kv toks "cancel")
+  let sc : RetScenario := ⟨zero == "1", abort == "1", overlap == "1", age, n, idle, cancel⟩
+  -- the whole chain in the transition system: a reload about to succeed, the retirement step, the
+  -- hand-over of the release to a goroutine, exactly `retireDoneAt` of model time, completion, release
+  let s0 : St := { pending := true, active := true, suppress := 1, progress := .done, nextRet := sc,
+                   m := [.startRet, .finishSucc] }
+  let fin := fun (s : St) => s!"p={b01 s.pending} a={b01 s.active} s={s.suppress} f={progStr s.progress}"
+  match runActs s0 [.stepM, .stepM] with
+  | some s1 =>
+    let d := s1.gLeft
+    let late := (step s1 (.tick (d + 1))).isSome
+    match runActs s1 [.tick d, .closeG, .gStore, .gEnd, .gRead] with
+    | some s2 =>
+      let ab := "|".intercalate ((retireAborted sc).eraseDups.map b01)
+      some (s!"done={d} aborted={ab} oldcancel=1 final={fin s2}" ++ (if late then " clock-not-urgent" else ""))
+    | none => some "disabled"
+  | none => some "disabled"
+
+def retOp (ws : List String) : Option String :=
+  match ws with
+  | ["const", "total"] => some s!"total={totalSwitchBudget}"
+  | ["budget", z, age, b] => do
+    let a ← age.toInt?; let bb ← b.toInt?
+    pure s!"rem={remBudget (z == "1") a bb}"
+  | "drain" :: toks => do
+    let mw ← (← kv toks "mw").toInt?; let n ← (← kv toks "n").toNat?
+    let idle ← optTime? (← kv toks "idle"); let cancel ← optTime? (← kv toks "cancel")
+    pure (s!"at={drainTime mw n idle cancel} res=" ++ "|".intercalate ((drainResults mw n idle cancel).map resStr))
+  | "retire" :: toks => retireLine toks
+  | _ => none
+
 
 structure DState where
   st : St := init
@@ -171,6 +253,9 @@ def handle (d : DState) (line : String) : DState × String :=
       (d, s!"missing={missing.length}" ++ String.join (missing.map fun p => " [" ++ p ++ "]"))
     | none => (d, "bad-op")
   | ws =>
+    match retOp ws with
+    | some out => (d, out)
+    | none =>
     match (splitActs ws).mapM act? with
     | some acts =>
       match runActs d.st acts with
